@@ -17,6 +17,8 @@ type Spec struct {
 	Verbose bool `json:"verbose,omitempty"`
 	// GoMaxProcs, if > 0, is the GOMAXPROCS the driver starts the child with (not read by the child).
 	GoMaxProcs int `json:"gomaxprocs,omitempty"`
+	// OneCPU makes the driver start the child pinned to a single processor (taskset), so that runtime.NumCPU() is 1.
+	OneCPU bool `json:"one_cpu,omitempty"`
 }
 
 // Begin is printed (one line, prefixed "BEGIN ") before a run starts.
@@ -82,6 +84,8 @@ type ReplayFile struct {
 	// derivation / hash call left behind in the package under test (caches, pools, globals).
 	Prelude  []int  `json:"prelude,omitempty"`
 	BaseSeed uint64 `json:"base_seed,omitempty"`
+	// OneCPU: the run was observed in a child pinned to one processor (runtime.NumCPU() == 1); replays do the same.
+	OneCPU bool `json:"one_cpu,omitempty"`
 	// ReplayNote is set when the violation did not reproduce in every confirmation attempt.
 	ReplayNote string `json:"replay_note,omitempty"`
 }
